@@ -1,4 +1,134 @@
-(** Wire entry points of property C14 (stub: replaced when the model is built). *)
-From Coq Require Import ZArith List.
-From PLV Require Import Base.Wire.
-Definition entry (sub : Z) (inp : list Z) : list Z := bad_input.
+(** Wire entry of property C14: decode a query universe and an operation
+    history, run the heap model, and print after every operation its result
+    and the observation of every live database.
+
+    Input:  universe  ops
+      universe = macro-names env-names specials-names tests iter-lists
+                 (names: list of str; tests: list of (str, list of pos);
+                  iter-lists: list of list of cat)
+      cat      = 0 n (user)  |  1 n (auto-generated)
+      spec     = name id
+      op       = 0                                           new
+               | 1 h optcat specs specs specs placement      add_context_category
+               | 2 h kind optspec                            set_unknown_*_spec
+               | 3 h                                         freeze
+               | 4 h cats cats kinds                         filtered_context
+               | 5 h optcat specs specs specs oo oo oo       extended_with
+      placement = 0 | 1 | 2 cat | 3 cat     (append, prepend, before, after)
+    Output: step|step|...   with step = result{obs}{obs}...  *)
+From Coq Require Import NArith ZArith List Bool Arith.
+From PLV Require Import Base.PyStr Base.Wire Ctx.CtxSpec Ctx.CtxHeap.
+Import ListNotations.
+
+(** * Decoding *)
+
+Definition bind {A B} (r : rd A) (f : A -> rd B) : rd B :=
+  fun l => match r l with Some (a, l') => f a l' | None => None end.
+Definition ret {A} (a : A) : rd A := fun l => Some (a, l).
+Notation "x <- r ;; k" := (bind r (fun x => k)) (at level 61, r at next level, right associativity).
+
+Definition rd_cat : rd cat :=
+  t <- rd_nat ;; n <- rd_nat ;; ret (match t with O => CUser n | _ => CAuto n end).
+Definition rd_spec : rd spec := n <- rd_str ;; i <- rd_nat ;; ret (mkspec n i).
+Definition rd_kind : rd kind :=
+  t <- rd_nat ;; ret (match t with O => KM | S O => KE | _ => KS end).
+Definition rd_placement : rd placement :=
+  t <- rd_nat ;;
+  match t with
+  | O => ret PAppend
+  | S O => ret PPrepend
+  | S (S O) => c <- rd_cat ;; ret (PBefore c)
+  | _ => c <- rd_cat ;; ret (PAfter c)
+  end.
+
+Definition rd_op : rd op :=
+  t <- rd_nat ;;
+  match t with
+  | 0 => ret ONew
+  | 1 => h <- rd_nat ;; c <- rd_opt rd_cat ;; ms <- rd_list rd_spec ;; es <- rd_list rd_spec ;;
+         ss <- rd_list rd_spec ;; pl <- rd_placement ;; ret (OAdd h c ms es ss pl)
+  | 2 => h <- rd_nat ;; k <- rd_kind ;; v <- rd_opt rd_spec ;; ret (OSetUnk h k v)
+  | 3 => h <- rd_nat ;; ret (OFreeze h)
+  | 4 => h <- rd_nat ;; keep <- rd_list rd_cat ;; excl <- rd_list rd_cat ;;
+         which <- rd_list rd_kind ;; ret (OFilter h keep excl which)
+  | _ => h <- rd_nat ;; c <- rd_opt rd_cat ;; ms <- rd_list rd_spec ;; es <- rd_list rd_spec ;;
+         ss <- rd_list rd_spec ;; um <- rd_opt (rd_opt rd_spec) ;; ue <- rd_opt (rd_opt rd_spec) ;;
+         us <- rd_opt (rd_opt rd_spec) ;; ret (OExtend h c ms es ss um ue us)
+  end.
+
+Record universe := mkuni {
+  u_macros : list str; u_envs : list str; u_specials : list str;
+  u_tests : list (str * list nat);
+  u_iters : list (list cat) }.
+
+Definition rd_universe : rd universe :=
+  a <- rd_list rd_str ;; b <- rd_list rd_str ;; c <- rd_list rd_str ;;
+  t <- rd_list (s <- rd_str ;; ps <- rd_list rd_nat ;; ret (s, ps)) ;;
+  i <- rd_list (rd_list rd_cat) ;; ret (mkuni a b c t i).
+
+(** * The queries asked of every live database, in print order *)
+Definition queries (u : universe) : list query :=
+  [QFrozen; QCats]
+  ++ map (QLookup KM) (u_macros u) ++ map (QLookup KE) (u_envs u) ++ map (QLookup KS) (u_specials u)
+  ++ concat (map (fun t => map (QTest (fst t)) (snd t)) (u_tests u))
+  ++ [QIter KM None; QIter KE None; QIter KS None]
+  ++ concat (map (fun cs => [QIter KM (Some cs); QIter KE (Some cs); QIter KS (Some cs)]) (u_iters u)).
+
+(** * Rendering *)
+
+Definition show_cat (c : cat) : str :=
+  match c with CUser n => 117%N :: show_nat n | CAuto n => 97%N :: show_nat n end.   (* u<n> / a<n> *)
+Definition show_spec (s : spec) : str := show_nat (sp_id s).
+
+Definition show_ans (a : option ans) : str :=
+  match a with
+  | None => [83; 84; 85; 67; 75]%N                                                    (* STUCK *)
+  | Some (AFrozen b) => show_bool b
+  | Some (ACats l) => show_list show_cat l
+  | Some (ALookup true v) => show_opt show_spec v
+  | Some (ALookup false v) => 126%N :: show_opt show_spec v                           (* ~unknown *)
+  | Some (ATest v) => show_opt show_spec v
+  | Some (AIter l b) => show_list show_spec l ++ (if b then [33%N] else [])           (* ! = ValueError *)
+  end.
+
+Definition show_answers (l : list (option ans)) : str :=
+  123%N :: join [44%N] (map show_ans l) ++ [125%N].                                   (* {a,b,...} *)
+
+Definition show_result (r : result) : str :=
+  match r with
+  | ROk => [111; 107]%N                                                               (* ok *)
+  | RNew h => 110%N :: show_nat h                                                     (* n<h> *)
+  | RRaise RuntimeError => [82; 117; 110; 116; 105; 109; 101; 69; 114; 114; 111; 114]%N
+  | RRaise ValueError => [86; 97; 108; 117; 101; 69; 114; 114; 111; 114]%N
+  | RNoSuchDb => [78; 79; 68; 66]%N
+  | RStuck => [83; 84; 85; 67; 75]%N
+  end.
+
+(** the observation text of one database: heap side and specification side
+    share the rendering and differ only in who answers *)
+Definition observe (u : universe) (w : world) (h : nat) : str :=
+  show_answers (map (run_query w h) (queries u)).
+Definition observe_spec (u : universe) (s : sdb) : str :=
+  show_answers (map (fun q => Some (spec_query s q)) (queries u)).
+
+Definition observe_all (u : universe) (w : world) : str :=
+  concat (map (observe u w) (seq 0 (length (w_dbs w)))).
+
+Fixpoint run_show (u : universe) (w : world) (ops : list op) : list str :=
+  match ops with
+  | [] => []
+  | o :: r => let (w', res) := db_step w o in
+              (show_result res ++ observe_all u w') :: run_show u w' r
+  end.
+
+Definition entry_history (inp : list Z) : list Z :=
+  match rd_universe inp with
+  | Some (u, r1) =>
+    match rd_list rd_op r1 with
+    | Some (ops, _) => to_wire (join [124%N] (run_show u init_world ops))
+    | None => bad_input
+    end
+  | None => bad_input
+  end.
+
+Definition entry (sub : Z) (inp : list Z) : list Z := entry_history inp.
